@@ -13,6 +13,9 @@ fn main() {
     if args.extra.get("child").map(String::as_str) == Some("fs-trace") {
         std::process::exit(fslane::child_fs_trace(args.seed));
     }
+    if args.extra.get("child").map(String::as_str) == Some("torn-probe") {
+        std::process::exit(fslane::child_torn_probe(args.seed));
+    }
     let code = match args.prop.as_str() {
         "C17" => c17::run(&args),
         other => {
